@@ -4,6 +4,7 @@ import (
 	"bytes"
 	"context"
 	"encoding/json"
+	"errors"
 	"reflect"
 	"runtime"
 	"strconv"
@@ -56,6 +57,8 @@ type Event struct {
 	Field string
 	Ver   int
 	Late  bool
+	// register / cleanup
+	Res int
 }
 
 type Recorder struct {
@@ -213,6 +216,13 @@ type Sock struct {
 	closed chan struct{}
 	once   sync.Once
 	fed    int
+
+	// the FailWrite-th WriteJSON and all later ones fail (0: never); FailMode "close": with a
+	// websocket.CloseError (the peer is gone; writeOrClose leaves the socket alone), else with a plain
+	// error (writeOrClose closes the socket)
+	FailWrite int
+	FailMode  string
+	writes    int
 }
 
 func NewSock(rec *Recorder) *Sock {
@@ -226,6 +236,12 @@ func (s *Sock) ReadJSON(v interface{}) error {
 	s.rec.readerG = goid()
 	s.rec.addLocked(Event{Kind: "readwait"})
 	s.rec.mu.Unlock()
+	select {
+	case <-s.closed: // a closed socket delivers nothing, whatever is queued
+		s.rec.add(Event{Kind: "readerr", ID: "close"})
+		return &websocket.CloseError{Code: websocket.CloseNormalClosure}
+	default:
+	}
 	select {
 	case raw := <-s.in:
 		return s.deliver(raw, v)
@@ -266,6 +282,16 @@ func (s *Sock) WriteJSON(v interface{}) error {
 	if n, ok := s.rec.gRun[g]; ok && g != s.rec.readerG {
 		run = n
 		delete(s.rec.gRun, g)
+	}
+	s.writes++
+	if s.FailWrite > 0 && s.writes >= s.FailWrite {
+		s.rec.addLocked(Event{Kind: "writefail", Env: env, Run: run})
+		s.rec.mu.Unlock()
+		if s.FailMode == "close" {
+			s.Close() // the peer has gone away: reads fail from now on
+			return &websocket.CloseError{Code: websocket.CloseGoingAway}
+		}
+		return errors.New("write: broken pipe")
 	}
 	s.rec.addLocked(Event{Kind: "write", Env: env, Run: run})
 	s.rec.mu.Unlock()
